@@ -2,106 +2,317 @@ import Rg.Model.TypeMatch
 import Rg.Spec.C10
 import Rg.Proofs.TypeMatch
 import Rg.Proofs.TypeMatchSound
+import Rg.Proofs.TypeMatchK
+import Rg.Proofs.TypeMatchKSound
+import Rg.Proofs.TypeMatchKComplete
+import Rg.Proofs.TypeMatchParse
+import Rg.Proofs.TypeMatchLaws
+import Rg.Proofs.TypeMatchKClosed
+import Rg.Proofs.SpecC10
+import Rg.Proofs.TypeMatchInst
 /-!
 # C10 — type patterns match exactly the types they denote
 
-Model: `Rg/Model/TypeMatch.lean` (`parseExpr`, `matchIdentical`, `matchSubs` as they stand).  Spec:
-`Rg/Spec/C10.lean` (`Denotes` declaratively, `specMatch` executably: complete backtracking).
+Model: `Rg/Model/TypeMatch.lean` — `parseExpr`; `matchK` / `matchFieldsK` / `matchTop`: the matcher as it is after
+`fixes/c10-*.diff` (backtracking in continuation-passing style, bindings of a failed attempt deleted, aliases looked
+through, variadic / generic signatures and function-local types rejected); `matchIdenticalAsIs` / `matchSubsAsIs` /
+`matchTopAsIs`: the matcher before those repairs.  Spec: `Rg/Spec/C10.lean` (`Denotes` declaratively, `specMatch`
+executably: complete backtracking).
 
-The biconditional of the property is false of the code as it stands (D14, D23, D24 and relatives, all found by
-the harness; kernel-checked below).  Proved here:
+For the repaired matcher both halves of the property are proved for **all** patterns and **all** types:
 
-* `match_sound` — the "only if" half, for **all** patterns and types: an answer `true` is always witnessed by
-  an assignment, under the code's own reading of types (`Rules.code`) and `xtypes.Identical`;
-* `closed_pattern` — both halves for patterns without named variables and without `$*_`, on *tame* types
-  (where the code's reading and the Go-spec reading coincide): the matcher computes `specMatch … Rules.strict`;
-* the completeness half for patterns with `$*_` is false (`func($*_, int)` vs `func(int, int)`), see
-  `match_complete` below for the statement and the counterexamples.
+* `match_sound` — an answer `true` is witnessed by an assignment under which the pattern denotes the type;
+* `match_complete` — if some assignment makes the pattern denote the type, the answer is `true`; `$*_`, repeated
+  `$T` and `[$n]` included.  Needs: the pattern is well-formed (`Pat.wf`, which `parseExpr` guarantees:
+  `parse_wf`), and `xtypes.Identical` is symmetric and transitive on the types involved (`IdLaws`; proved for the
+  repaired `xtypes.Identical` on well-formed trees: `idLaws_xtypes`, from C14's `tid_symm` / `tid_trans`);
+* `match_iff`, `match_iff_xtypes` — the two together; `match_iff_strict` — the same with the property's own reading
+  `Rules.strict` on types without instantiated generic named types;
+* `failed_attempt_restores` — a failed attempt leaves the binding tables as they were (what the old code got wrong);
+* `specMatch_iff`, `model_meets_spec` — the executable spec `specMatch` decides the same existential, so the matcher
+  *is* the complete backtracking matcher of the spec (reading `Rules.repaired`, identity `xtypes.Identical`);
+* `closed_pattern` — on tame types a closed pattern is answered like the executable *strict* spec `specMatch … Rules.strict`.
+
+"Denotes" is read with `Rules.repaired` and the identity `xtypes.Identical`: the property's own reading
+(`Rules.strict`, Go-spec identity) differs in that `pkg.T` must not match an instantiation `T[…]` (open finding
+`named:instantiated-generic`) and where `xtypes.Identical` differs from `go/types.Identical` (C14's open findings).
+The statements about the old matcher (`…_asis`) and the kernel-checked counterexamples to its completeness are kept.
 -/
 
 namespace C10
 open XTypes TypeMatch
 open SpecC10 (Denotes DenotesSeq Rules specMatch)
 
-/-- Soundness, all patterns × all types: if `MatchIdentical` (code as it stands, `fx = false`, or with the
-repaired `xtypes.Identical`, `fx = true`) answers `true`, some assignment `σ` of the `$`-variables makes the
-pattern denote the type — each `$*_` standing for a run of fields / parameters, each occurrence of `$T`
-identical to `σ T`, each `[$n]` of length `σ n`. -/
+/-! ## The repaired matcher -/
+
+/-- Soundness, all patterns × all types: if `MatchIdentical` answers `true`, some assignment `σ` of the
+`$`-variables makes the pattern denote the type — each `$*_` standing for a run of fields / parameters, each
+occurrence of `$T` identical to `σ T`, each `[$n]` of length `σ n`. -/
 theorem match_sound (fx : Bool) (p : Pat) (t : Ty) (h : matchTop fx p t = true) :
-    ∃ σ, Denotes (tid fx) Rules.code σ p t := by
+    ∃ σ, Denotes (tid fx) Rules.repaired σ p t := by
   unfold matchTop at h
-  rcases hm : matchIdentical fx MState.empty p t with ⟨b, st'⟩
+  rcases hm : matchK fx p t MState.empty matchedK with ⟨b, fin⟩
+  rw [hm] at h
+  simp only at h
+  subst h
+  obtain ⟨s', _, _, _, hd⟩ := soundK (fx := fx) (W := fun _ => True) (P := fun _ => True) wclosed_true
+    ⟨fun _ _ _ _ _ => trivial, fun _ _ _ _ => trivial⟩ p t matchedK MState.empty fin restoring_matched trivial trivial hm
+  exact ⟨s', hd s' (MState.le_refl _)⟩
+
+/-- A failed attempt leaves the binding tables exactly as they were: whatever the continuation, if it restores the
+tables when it fails, so does the match in front of it (`delete(state.typeMatches, name)` /
+`delete(state.int64Matches, v)` undo the bindings of the attempt). -/
+theorem failed_attempt_restores (fx : Bool) (p : Pat) (t : Ty) (k : MState → Bool × MState) (hk : Restoring k)
+    (st st' : MState) (h : matchK fx p t st k = (false, st')) : st' = st :=
+  matchK_restores p t k hk st st' h
+
+/-- Completeness, all well-formed patterns × all types, `$*_` and repeated variables included: if *some* assignment
+`σ` makes the pattern denote the type, `MatchIdentical` answers `true`.  `W` is any set of types containing `t` and
+the values of `σ`, closed under the matcher's steps, on which `xtypes.Identical` is symmetric and transitive. -/
+theorem match_complete (fx : Bool) (W : Ty → Prop) (L : IdLaws fx W) (p : Pat) (t : Ty) (σ : MState)
+    (hwf : p.wf = true) (hwt : W t) (hσ : ValuesIn W σ) (hd : Denotes (tid fx) Rules.repaired σ p t) :
+    matchTop fx p t = true :=
+  completeK L σ hσ p t matchedK MState.empty hwf hwt hd (compat_empty fx W σ) restoring_matched (fun _ _ => rfl)
+
+/-- The biconditional of the property for the repaired matcher (reading `Rules.repaired`, identity `xtypes.Identical`). -/
+theorem match_iff (fx : Bool) (W : Ty → Prop) (L : IdLaws fx W) (p : Pat) (t : Ty) (hwf : p.wf = true) (hwt : W t) :
+    matchTop fx p t = true ↔ ∃ σ, ValuesIn W σ ∧ Denotes (tid fx) Rules.repaired σ p t := by
+  constructor
+  · intro h
+    unfold matchTop at h
+    rcases hm : matchK fx p t MState.empty matchedK with ⟨b, fin⟩
+    rw [hm] at h
+    simp only at h
+    subst h
+    obtain ⟨s', _, hp, _, hd⟩ := soundK (fx := fx) L.toWClosed (valuesIn_inv W) p t matchedK MState.empty fin
+      restoring_matched hwt (fun x y hl => by simp [lookupT, MState.empty] at hl) hm
+    exact ⟨s', hp, hd s' (MState.le_refl _)⟩
+  · rintro ⟨σ, hσ, hd⟩
+    exact match_complete fx W L p t σ hwf hwt hσ hd
+
+/-- every pattern the loader accepts is well-formed -/
+theorem parse_wf (errObj : Nat) (itab : Itab) (e : TExpr) (p : Pat) (h : parseExpr errObj itab e = some p) :
+    p.wf = true :=
+  parseExpr_wf errObj itab e p h
+
+/-- The biconditional for the code as it is (repaired matcher, repaired `xtypes.Identical`): a pattern accepted by the
+loader matches a well-formed type iff some assignment of well-formed types makes the pattern denote it.
+`E` = `token.IsExported`, `D` = the declaration table (one spelling per declaration object). -/
+theorem match_iff_xtypes (E : String → Bool) (D : Nat → Decl) (errObj : Nat) (itab : Itab) (e : TExpr) (p : Pat)
+    (hp : parseExpr errObj itab e = some p) (t : Ty) (ht : WellFormed true E D t) :
+    matchTop true p t = true ↔
+      ∃ σ, ValuesIn (WellFormed true E D) σ ∧ Denotes typeIdentical Rules.repaired σ p t :=
+  match_iff true _ (idLaws_xtypes true E D) p t (parse_wf errObj itab e p hp) ht
+
+/-- The property in its own reading of types (`Rules.strict`): on types without instantiated generic named types
+(`noInst`) the repaired matcher answers `true` iff some assignment makes the pattern denote the type — what separates
+`match_iff` from the strict reading is exactly the open finding `named:instantiated-generic`. -/
+theorem match_iff_strict (fx : Bool) (W : Ty → Prop) (L : IdLaws fx W) (p : Pat) (t : Ty) (hwf : p.wf = true) (hwt : W t)
+    (hni : noInst t = true) :
+    matchTop fx p t = true ↔ ∃ σ, ValuesIn W σ ∧ Denotes (tid fx) Rules.strict σ p t := by
+  rw [match_iff fx W L p t hwf hwt]
+  constructor
+  · rintro ⟨σ, hσ, hd⟩; exact ⟨σ, hσ, denotes_strict_of_repaired p t hni hd⟩
+  · rintro ⟨σ, hσ, hd⟩; exact ⟨σ, hσ, denotes_repaired_of_strict p t hd⟩
+
+/-- … for the code as it is: pattern accepted by the loader, well-formed type without instantiations. -/
+theorem match_iff_strict_xtypes (E : String → Bool) (D : Nat → Decl) (errObj : Nat) (itab : Itab) (e : TExpr) (p : Pat)
+    (hp : parseExpr errObj itab e = some p) (t : Ty) (ht : WellFormed true E D t) (hni : noInst t = true) :
+    matchTop true p t = true ↔
+      ∃ σ, ValuesIn (WellFormed true E D) σ ∧ Denotes typeIdentical Rules.strict σ p t :=
+  match_iff_strict true _ (idLaws_xtypes true E D) p t (parse_wf errObj itab e p hp) ht hni
+
+/-! ### the executable spec the driver evaluates on the implementation's answers -/
+
+/-- `specMatch` only says `true` when some assignment makes the pattern denote the type (any reflexive `I`). -/
+theorem spec_sound (I : Ty → Ty → Bool) (R : Rules) (hrefl : ∀ t, I t t = true) (p : Pat) (t : Ty)
+    (h : specMatch I R p t = true) : ∃ σ, Denotes I R σ p t := by
+  unfold specMatch at h
+  cases hl : SpecC10.specM I R MState.empty p t with
+  | nil => simp [hl] at h
+  | cons s' l =>
+    obtain ⟨_, _, hd⟩ := specM_sound (I := I) (R := R) (W := fun _ => True) (P := fun _ => True) wclosed_true
+      ⟨fun _ _ _ _ _ => trivial, fun _ _ _ _ => trivial⟩ hrefl p t MState.empty s' trivial trivial (by simp [hl])
+    exact ⟨s', hd s' (MState.le_refl _)⟩
+
+/-- `specMatch` decides "some assignment makes the pattern denote the type", for every reading `R` of types, with
+`xtypes.Identical` as the identity, under the same hypotheses as `match_complete`. -/
+theorem specMatch_iff (fx : Bool) (R : Rules) (W : Ty → Prop) (L : IdLaws fx W) (p : Pat) (t : Ty) (hwt : W t) :
+    specMatch (tid fx) R p t = true ↔ ∃ σ, ValuesIn W σ ∧ Denotes (tid fx) R σ p t := by
+  constructor
+  · intro h
+    unfold specMatch at h
+    cases hl : SpecC10.specM (tid fx) R MState.empty p t with
+    | nil => simp [hl] at h
+    | cons s' l =>
+      obtain ⟨_, hp, hd⟩ := specM_sound (I := tid fx) (R := R) L.toWClosed (valuesIn_inv W) (tid_refl fx) p t
+        MState.empty s' hwt (fun x y hx => by simp [lookupT, MState.empty] at hx) (by simp [hl])
+      exact ⟨s', hp, hd s' (MState.le_refl _)⟩
+  · rintro ⟨σ, hσ, hd⟩
+    obtain ⟨s', hs', _⟩ := specM_complete (R := R) L σ hσ p t MState.empty hwt hd (compat_empty fx W σ)
+    unfold specMatch
+    cases hl : SpecC10.specM (tid fx) R MState.empty p t with
+    | nil => simp [hl] at hs'
+    | cons _ _ => simp
+
+/-- The model meets the executable spec: on every well-formed pattern and every type in `W` the repaired matcher
+answers exactly what the complete backtracking matcher of the spec answers (same reading, same identity). -/
+theorem model_meets_spec (fx : Bool) (W : Ty → Prop) (L : IdLaws fx W) (p : Pat) (t : Ty) (hwf : p.wf = true)
+    (hwt : W t) : matchTop fx p t = specMatch (tid fx) Rules.repaired p t := by
+  rw [Bool.eq_iff_iff, match_iff fx W L p t hwf hwt, specMatch_iff fx Rules.repaired W L p t hwt]
+
+/-- … in particular for the code as it is, on patterns accepted by the loader and well-formed types. -/
+theorem model_meets_spec_xtypes (E : String → Bool) (D : Nat → Decl) (errObj : Nat) (itab : Itab) (e : TExpr) (p : Pat)
+    (hp : parseExpr errObj itab e = some p) (t : Ty) (ht : WellFormed true E D t) :
+    matchTop true p t = specMatch typeIdentical Rules.repaired p t :=
+  model_meets_spec true _ (idLaws_xtypes true E D) p t (parse_wf errObj itab e p hp) ht
+
+/-- Closed patterns: for a pattern without named variables and without `$*_` whose builtin payloads are in
+`bs`, and a type that is *tame* (no alias, no variadic or generic signature, no instantiated or function-local
+named type, vendor-simple paths, and `I` agreeing with `xtypes.Identical` on the payloads at every subterm), the
+matcher answers exactly `specMatch I Rules.strict` — in particular with `I = goIdentical`: "a pattern without
+variables matches precisely the types identical to the one it spells". -/
+theorem closed_pattern (fx : Bool) (I : Ty → Ty → Bool) (bs : List Ty) (p : Pat) (t : Ty)
+    (hc : closedIn bs p = true) (ht : tame fx I bs t = true) :
+    matchTop fx p t = specMatch I Rules.strict p t := by
+  obtain ⟨b, h1, h2⟩ := closed_runK (fx := fx) (I := I) (bs := bs) p MState.empty t hc ht
+  have h2' := h2 matchedK
+  simp only at h2'
+  unfold matchTop specMatch
+  rw [h1, h2']
+  cases b <;> simp [matchedK]
+
+/-! ## The matcher before the repairs -/
+
+/-- Soundness of the old matcher (stale bindings can only make later comparisons stricter). -/
+theorem match_sound_asis (fx : Bool) (p : Pat) (t : Ty) (h : matchTopAsIs fx p t = true) :
+    ∃ σ, Denotes (tid fx) Rules.code σ p t := by
+  unfold matchTopAsIs at h
+  rcases hm : matchIdenticalAsIs fx MState.empty p t with ⟨b, st'⟩
   rw [hm] at h
   simp only at h
   subst h
   exact ⟨st', (sound p MState.empty t true st' hm).2 rfl st' (MState.le_refl _)⟩
 
-/-- The binding tables only grow during a match — also through a failed alternative (this is what makes
-stale bindings harmless for soundness and harmful for completeness). -/
-theorem bindings_grow (fx : Bool) (p : Pat) (st : MState) (t : Ty) :
-    MState.le st (matchIdentical fx st p t).2 :=
+/-- The binding tables of the old matcher only grow during a match — also through a failed alternative (this is
+what made stale bindings harmless for soundness and harmful for completeness). -/
+theorem bindings_grow_asis (fx : Bool) (p : Pat) (st : MState) (t : Ty) :
+    MState.le st (matchIdenticalAsIs fx st p t).2 :=
   (sound p st t _ _ rfl).1
 
-/-- Closed patterns: for a pattern without named variables and without `$*_` whose builtin payloads are in
-`bs`, and a type that is *tame* (no alias, no variadic or generic signature, no instantiated named type,
-vendor-simple paths, and `I` agreeing with `xtypes.Identical` on the payloads at every subterm), the matcher
-answers exactly `specMatch I Rules.strict` — in particular with `I = goIdentical`: "a pattern without
-variables matches precisely the types identical to the one it spells". -/
-theorem closed_pattern (fx : Bool) (I : Ty → Ty → Bool) (bs : List Ty) (p : Pat) (t : Ty)
+theorem closed_pattern_asis (fx : Bool) (I : Ty → Ty → Bool) (bs : List Ty) (p : Pat) (t : Ty)
     (hc : closedIn bs p = true) (ht : tame fx I bs t = true) :
-    matchTop fx p t = specMatch I Rules.strict p t := by
+    matchTopAsIs fx p t = specMatch I Rules.strict p t := by
   obtain ⟨_, h2⟩ := closed_run (fx := fx) (I := I) (bs := bs) p MState.empty t hc ht
-  unfold matchTop specMatch
+  unfold matchTopAsIs specMatch
   rw [h2]
-  cases (matchIdentical fx MState.empty p t).1 <;> simp
+  cases (matchIdenticalAsIs fx MState.empty p t).1 <;> simp
 
-/- `match_complete` (FALSE for the code as it stands, kernel-checked below):
-     `(∃ σ, Denotes (tid fx) Rules.code σ p t) → matchTop fx p t = true`.
-   What is proved of completeness is `closed_pattern` (patterns without `$T`, `[$n]`, `$*_`).  Missing for a
-   `match_complete_partial` over patterns *with* variables but without `$*_`: an invariant relating the binding
-   tables of the matcher to a given assignment σ (first-occurrence bindings are identical, not equal, to σ),
-   which needs symmetry and transitivity of `xtypes.Identical` (C14.x_symm / x_trans) at every variable. -/
+/- `match_complete` for the old matcher is FALSE (kernel-checked below):
+     `(∃ σ, Denotes (tid fx) Rules.code σ p t) → matchTopAsIs fx p t = true`. -/
 
-/-! ## Non-vacuity and kernel-checked counterexamples -/
+/-! ## Non-vacuity, the old counterexamples, and what the repaired matcher answers on them -/
 
 def tInt : Ty := .basic 2
 def tStr : Ty := .basic 17
+def tBool : Ty := .basic 1
 def sig (ps rs : List Ty) (variadic : Bool := false) : Ty := .sig variadic [] (.tuple ps) (.tuple rs)
 
 -- `match_sound` / `closed_pattern` are exercised by concrete matches
-example : matchTop false (.map (.var "t") (.var "t")) (.map tInt tInt) = true := by decide
-example : matchTop false (.funcNoSeq [.builtin tInt, .slice (.builtin tStr)] []) (sig [tInt, .slice tStr] []) =
+example : matchTop true (.map (.var "t") (.var "t")) (.map tInt tInt) = true := by decide
+example : matchTop true (.funcNoSeq [.builtin tInt, .slice (.builtin tStr)] []) (sig [tInt, .slice tStr] []) =
     specMatch SpecC14.goIdentical Rules.strict (.funcNoSeq [.builtin tInt, .slice (.builtin tStr)] [])
       (sig [tInt, .slice tStr] []) :=
-  closed_pattern false SpecC14.goIdentical [tInt, tStr] _ _ (by decide) (by decide)
+  closed_pattern true SpecC14.goIdentical [tInt, tStr] _ _ (by decide) (by decide)
 
--- D14: `func($*_, int)` does not match `func(int, int)` (non-greedy look-ahead, no backtracking) …
-example : matchTop false (.func [.varSeq, .builtin tInt] []) (sig [tInt, tInt] []) = false ∧
+-- `match_complete` / `match_iff_xtypes` are not vacuous: the laws hold on the well-formed trees (`idLaws_xtypes`),
+-- and here is a pattern with `$*_` and a repeated variable, a well-formed type and an assignment denoting it
+def exD : Nat → Decl := fun _ => ⟨none, "", false, false⟩
+def exPat : Pat := .func [.varSeq, .var "t", .var "t"] []
+def exTy : Ty := sig [tInt, tStr, tStr] []
+def exσ : MState := ⟨[("t", tStr)], []⟩
+example : WellFormed true (fun _ => false) exD exTy := ⟨by decide, by decide, by decide⟩
+example : ValuesIn (WellFormed true (fun _ => false) exD) exσ := by
+  intro x y h
+  have : x = "t" ∧ y = tStr := by
+    by_cases hx : x = "t"
+    · subst hx; simp [lookupT, exσ] at h; exact ⟨rfl, h.symm⟩
+    · have : ("t" == x) = false := by simpa using fun e => hx e.symm
+      simp [lookupT, exσ, List.find?, this] at h
+  obtain ⟨rfl, rfl⟩ := this
+  exact ⟨by decide, by decide, by decide⟩
+example : Denotes typeIdentical Rules.repaired exσ exPat exTy :=
+  .func _ _ _ false [] (.tuple [tInt, tStr, tStr]) (.tuple []) rfl (fun _ => rfl) (fun _ => rfl)
+    (.run _ _ 1 (.cons _ _ _ _ (.var "t" tStr tStr rfl (by decide))
+      (.cons _ _ _ _ (.var "t" tStr tStr rfl (by decide)) .nil)))
+    .nil
+example : matchTop true exPat exTy = true := by decide
+example : matchTop true exPat exTy = specMatch typeIdentical Rules.repaired exPat exTy :=
+  model_meets_spec true _ (idLaws_xtypes true (fun _ => false) exD) exPat exTy (by decide) ⟨by decide, by decide, by decide⟩
+example : exPat.wf = true := by decide
+example : noInst exTy = true := by decide
+
+-- D14: `func($*_, int)` did not match `func(int, int)` (non-greedy look-ahead, no backtracking); now it does
+example : matchTopAsIs false (.func [.varSeq, .builtin tInt] []) (sig [tInt, tInt] []) = false ∧
     specMatch SpecC14.goIdentical Rules.strict (.func [.varSeq, .builtin tInt] []) (sig [tInt, tInt] []) = true := by
   decide
--- … and `func($*_, map[$k]int, $k)` does not match `func(map[string]string, map[bool]int, bool)`: the failed
--- look-ahead on the first parameter leaves `$k = string` behind
-example : matchTop false (.func [.varSeq, .map (.var "k") (.builtin tInt), .var "k"] [])
-      (sig [.map tStr tStr, .map (.basic 1) tInt, .basic 1] []) = false ∧
+example : matchTop true (.func [.varSeq, .builtin tInt] []) (sig [tInt, tInt] []) = true := by decide
+-- … and `func($*_, map[$k]int, $k)` did not match `func(map[string]string, map[bool]int, bool)`: the failed
+-- look-ahead on the first parameter left `$k = string` behind; now the binding is deleted again
+example : matchTopAsIs false (.func [.varSeq, .map (.var "k") (.builtin tInt), .var "k"] [])
+      (sig [.map tStr tStr, .map tBool tInt, tBool] []) = false ∧
     specMatch SpecC14.goIdentical Rules.strict (.func [.varSeq, .map (.var "k") (.builtin tInt), .var "k"] [])
-      (sig [.map tStr tStr, .map (.basic 1) tInt, .basic 1] []) = true := by
+      (sig [.map tStr tStr, .map tBool tInt, tBool] []) = true := by
   decide
--- D23: the closed pattern `func(int, []string)` matches the variadic `func(int, ...string)`
-example : matchTop false (.funcNoSeq [.builtin tInt, .slice (.builtin tStr)] []) (sig [tInt, .slice tStr] [] true) = true ∧
+example : matchTop true (.func [.varSeq, .map (.var "k") (.builtin tInt), .var "k"] [])
+      (sig [.map tStr tStr, .map tBool tInt, tBool] []) = true := by decide
+-- a split point chosen for the parameters is revised when the results do not fit: `func($*_, $t, $*_) $t` against
+-- `func(int, string) string`; likewise across a nested pattern: `struct{ func($*_, $t, $*_); $t }`
+example : matchTop true (.func [.varSeq, .var "t", .varSeq] [.var "t"]) (sig [tInt, tStr] [tStr]) = true ∧
+    matchTopAsIs true (.func [.varSeq, .var "t", .varSeq] [.var "t"]) (sig [tInt, tStr] [tStr]) = false := by decide
+example : matchTop true (.structNoSeq [.func [.varSeq, .var "t", .varSeq] [], .var "t"])
+    (.struct [.field "f" none false false "" (sig [tInt, tStr] []), .field "s" none false false "" tStr]) = true := by
+  decide
+-- `[$n]` bound in a failed attempt is deleted as well: `func($*_, [$n]int, $*_) [$n]string`
+example : matchTop true (.func [.varSeq, .arrayVar "n" (.builtin tInt), .varSeq] [.arrayVar "n" (.builtin tStr)])
+    (sig [.array 2 tInt, .array 3 tInt] [.array 3 tStr]) = true := by decide
+-- D23: the closed pattern `func(int, []string)` matched the variadic `func(int, ...string)`; now it does not
+example : matchTopAsIs false (.funcNoSeq [.builtin tInt, .slice (.builtin tStr)] []) (sig [tInt, .slice tStr] [] true) = true ∧
     specMatch SpecC14.goIdentical Rules.strict (.funcNoSeq [.builtin tInt, .slice (.builtin tStr)] [])
       (sig [tInt, .slice tStr] [] true) = false := by
   decide
--- D24 (repaired in /repo): `c.T` (import path `c`) matches `a/vendor/c.T`, `a/vendor/b/vendor/c.T` and `vendor/c.T`;
+example : matchTop true (.funcNoSeq [.builtin tInt, .slice (.builtin tStr)] []) (sig [tInt, .slice tStr] [] true) = false ∧
+    matchTop true (.func [.varSeq] [.varSeq]) (sig [tInt, .slice tStr] [] true) = false := by decide
+-- a function pattern does not match the type of a generic function any more
+example : matchTopAsIs true (.func [.varSeq] [.varSeq]) (.sig false [.iface true false [] []] (.tuple [.tparam 1 7]) (.tuple [])) = true ∧
+    matchTop true (.func [.varSeq] [.varSeq]) (.sig false [.iface true false [] []] (.tuple [.tparam 1 7]) (.tuple [])) = false := by
+  decide
+-- D24 (repaired earlier): `c.T` (import path `c`) matches `a/vendor/c.T`, `a/vendor/b/vendor/c.T` and `vendor/c.T`;
 -- the stripping of the pinned code (`vendorStripAsIs`, first `/vendor/` only) got the last two wrong
 example : vendorStripAsIs "a/vendor/b/vendor/c" ≠ "c" ∧ vendorStripAsIs "vendor/c" ≠ "c" := by decide
-example : matchTop false (.named "c" "T") (.named 1 1 (some "a/vendor/c") "T" true false []) = true ∧
-    matchTop false (.named "c" "T") (.named 1 2 (some "a/vendor/b/vendor/c") "T" true false []) = true ∧
-    matchTop false (.named "c" "T") (.named 1 3 (some "vendor/c") "T" true false []) = true ∧
+example : matchTop true (.named "c" "T") (.named 1 1 (some "a/vendor/c") "T" true false []) = true ∧
+    matchTop true (.named "c" "T") (.named 1 2 (some "a/vendor/b/vendor/c") "T" true false []) = true ∧
+    matchTop true (.named "c" "T") (.named 1 3 (some "vendor/c") "T" true false []) = true ∧
     specMatch SpecC14.goIdentical Rules.strict (.named "c" "T") (.named 1 2 (some "a/vendor/b/vendor/c") "T" true false []) = true ∧
     specMatch SpecC14.goIdentical Rules.strict (.named "c" "T") (.named 1 3 (some "vendor/c") "T" true false []) = true := by
   decide
--- an alias-typed expression does not match the pattern of the type it denotes (gotypesalias=1)
-example : matchTop false (.ptr (.builtin tInt)) (.alias 1 5 (.ptr tInt)) = false ∧
+-- an alias-typed expression did not match the pattern of the type it denotes (gotypesalias=1); now it does
+example : matchTopAsIs false (.ptr (.builtin tInt)) (.alias 1 5 (.ptr tInt)) = false ∧
     specMatch SpecC14.goIdentical Rules.strict (.ptr (.builtin tInt)) (.alias 1 5 (.ptr tInt)) = true := by decide
+example : matchTop true (.ptr (.builtin tInt)) (.alias 1 5 (.ptr tInt)) = true ∧
+    matchTop true .anyIface (.alias 0 9 (.iface true false [] [])) = true := by decide
+-- `p.Template` matched a function-local `type Template`; now only the package-level one
+example : matchTopAsIs true (.named "p" "Template") (.named 1 4 (some "p") "Template" true true []) = true ∧
+    matchTop true (.named "p" "Template") (.named 1 4 (some "p") "Template" true true []) = false ∧
+    matchTop true (.named "p" "Template") (.named 1 5 (some "p") "Template" true false []) = true := by decide
+-- still open: `p.Box` matches the instantiation `Box[int]` (the one clause in which `Rules.repaired` is not `Rules.strict`)
+example : matchTop true (.named "p" "Box") (.named 1 6 (some "p") "Box" true false [tInt]) = true ∧
+    specMatch SpecC14.goIdentical Rules.strict (.named "p" "Box") (.named 1 6 (some "p") "Box" true false [tInt]) = false := by
+  decide
+-- a pattern that is not well-formed (never built by `parseExpr`) shows why `match_complete` asks for `Pat.wf`
+example : Denotes typeIdentical Rules.repaired MState.empty (.funcNoSeq [.varSeq] []) (sig [tInt, tInt] []) ∧
+    matchTop true (.funcNoSeq [.varSeq] []) (sig [tInt, tInt] []) = false :=
+  ⟨.funcNoSeq _ _ _ false [] (.tuple [tInt, tInt]) (.tuple []) rfl (fun _ => rfl) (fun _ => rfl)
+    (.run _ _ 2 .nil) .nil, by decide⟩
 
 end C10
